@@ -193,6 +193,8 @@ def _coercion(node):
         cls = ast.unparse(call.func)
         if ast.unparse(call) != f"{cls}(**request)":
             raise Shape("dict branch does not expand the dict: " + ast.unparse(call))
+        if not node.orelse:
+            return "SDictOnly", cls, None, []      # mixin and legacy IAM methods: only a dict is coerced
         if len(node.orelse) != 1 or not isinstance(node.orelse[0], ast.If) or ast.unparse(node.orelse[0].test) != "not request" \
                 or node.orelse[0].orelse:
             raise Shape("missing 'elif not request' branch")
@@ -268,7 +270,13 @@ def _method_ir(fn):
         rec.update({"coerce": None, "request_class": None, "ctor": None, "apps": [], "place": "PTop"})
     # ---- after the lookup: metadata, validation, the call, wrappers, return
     call, wrappers, returns, other = None, [], None, []
+    flat = []
     for s in rest:
+        if isinstance(s, ast.Try):            # the mixin methods wrap the call in try/except to annotate auth errors
+            flat.extend(s.body)
+        else:
+            flat.append(s)
+    for s in flat:
         u = ast.unparse(s)
         val = s.value if isinstance(s, (ast.Assign, ast.Expr)) else None
         awaited = isinstance(val, ast.Await)
